@@ -31,6 +31,36 @@ func (c *fnCtx) execInstr(st *State, in ssa.Instruction) {
 		if len(locs) > 0 {
 			c.storeLocs(st, locs, c.zeroVal(pt))
 		}
+		// a zero value satisfies its representation invariant (with an empty ghost view)
+		if c.con != nil && c.con.UsesRepInv {
+			// ghost fields of fresh memory are zero like the real ones
+			var gcs []string
+			for comp := range c.g.compKT {
+				if strings.HasPrefix(comp, "$ghost:") && !strings.HasSuffix(comp, "[]") && strings.Contains(comp, "/") {
+					gcs = append(gcs, comp)
+				}
+			}
+			sort.Strings(gcs)
+			for _, comp := range gcs {
+				kt := c.g.compKT[comp]
+				zero := map[Kind]string{KRef: "nil", KInt: "0", KBool: "false", KIface: "nilI"}[kt.k]
+				if zero == "" {
+					continue
+				}
+				x := c.fresh("qz")
+				h := c.comp(st, comp, c.sortOf(kt.k, kt.t))
+				c.assume(st, fmt.Sprintf("(forall ((%s Ref)) (! (=> (= (rootid %s) (rootid %s)) (= (select %s %s) %s)) :pattern ((select %s %s))))", x, x, c.vals[in].S, h, x, zero, h, x))
+			}
+			c.assumeRepInv(st, c.vals[in], in.Type())
+			if stru, ok := pt.Underlying().(*types.Struct); ok {
+				for i := 0; i < stru.NumFields(); i++ {
+					ft := stru.Field(i).Type()
+					if kindOf(ft) == KStruct {
+						c.assumeRepInv(st, mkRef(app("fld", c.vals[in].S, fmt.Sprint(i)), types.NewPointer(ft)), types.NewPointer(ft))
+					}
+				}
+			}
+		}
 	case *ssa.BinOp:
 		x, y := c.val(st, in.X), c.val(st, in.Y)
 		x, y = c.coerceNil(x, in.Y.Type()), c.coerceNil(y, in.X.Type())
@@ -73,6 +103,7 @@ func (c *fnCtx) execInstr(st *State, in ssa.Instruction) {
 		c.nilCheck(st, base, in.Pos())
 		c.set(in, mkRef(app("fld", base.S, fmt.Sprint(in.Field)), in.Type()))
 		c.assume(st, app("=", app("rootid", c.vals[in].S), app("rootid", base.S)))
+		c.assumeRepInv(st, base, in.X.Type())
 	case *ssa.IndexAddr:
 		c.execIndexAddr(st, in)
 	case *ssa.Index:
@@ -631,6 +662,40 @@ func (c *fnCtx) assumeWFIf(st *State, cond string, v SymVal) {
 	c.assumeWellFormed(tmp, v)
 	if tmp.cur != "true" {
 		c.assume(st, sImp(cond, tmp.cur))
+	}
+}
+
+// ---------------------------------------------------------------------------
+// Representation invariants (assumed, never checked): in a function that says "uses repinv",
+// every access to a field of a *T with a repinv declaration assumes that invariant of the
+// object in the current state. They state how a data structure's ghost view relates to its
+// concrete fields between calls of its own methods; the methods themselves never use them.
+
+func (c *fnCtx) assumeRepInv(st *State, base SymVal, t types.Type) {
+	if c.con == nil || !c.con.UsesRepInv {
+		return
+	}
+	pt, ok := t.Underlying().(*types.Pointer)
+	if !ok {
+		return
+	}
+	n, ok := pt.Elem().(*types.Named)
+	if !ok || n.Obj().Pkg() == nil {
+		return
+	}
+	decls := c.g.repinvs[n.Obj().Pkg().Path()+"."+n.Obj().Name()]
+	for _, d := range decls {
+		env := c.newEnv(st, st)
+		env.calleePkg = d.Pkg
+		self := base
+		self.T = t
+		env.vars["self"] = self
+		r, err := env.evalBool(d.Text)
+		if err != nil {
+			c.abort("%s: repinv: %v", d.Pos, err)
+		}
+		c.assume(st, sImp(sNot(sEq(base.S, "nil")), r))
+		c.assumedUsed["representation invariant of "+n.Obj().Name()+" (repinv, assumed at field accesses)"] = true
 	}
 }
 
